@@ -92,8 +92,18 @@ check("C13", "model_checking",
       "over their union on the exact fields); TLC validates the traces.",
       "report equality excludes estimator percentiles (order dependent, C11); plain error texts in the report comparison", STREAM_TECH, "DESIGN.md section 6 (C13)")
 
+check("C17", "model_checking",
+      "Plot.tla transcribes labeledSeries.add (buffer by sequence number, release in order, origin at sequence 0, monotonic check) and states the "
+      "contract (one point per result at x = floor((ts-ts0)/1ms), per attack and label); TLC checks every arrival permutation of every result set "
+      "up to 4 (5 thorough) results. Lttb.tla states the Downsample contract and checks the exact bucket arithmetic for all (count, threshold) up to "
+      "64. The real Downsample runs for every such pair with an instrumented iterator and random pairs to 5000; the real Plot is fed result sets in "
+      "three arrival orders, with and without downsampling; rows from Plot.data() and from the HTML of the plot command are validated by TLC.",
+      "requires timestamps non-decreasing in sequence number (C05); float x/y converted back to integer ms/ns by rounding",
+      "TLA+ contract + transcription of labeledSeries.add (TLC exhaustive over permutations), exhaustive (count,threshold) replay, TLC trace validation",
+      "DESIGN.md section 7 (C17)")
+
 UNDER = "check under construction in this round (specification and driver not committed yet)"
-for p in ["C05", "C06", "C15", "C17", "C18", "C19", "C20"]:
+for p in ["C05", "C06", "C15", "C18", "C19", "C20"]:
     NA[p] = UNDER
 NA["C16"] = ("arbitrary-byte crash/hang freedom of parsers has no abstract state machine to specify; deciding it means fuzzing, "
              "a different technique (DESIGN.md section 9)")
